@@ -44,6 +44,41 @@ class Verifier(Exec):
                     return self.const_val(None, c)
         return None
 
+    def lookup_global(self, st, name):
+        pk = self.fn['pkg']
+        cands = [pk + '.' + name]
+        if '.' in name:
+            p, n = name.split('.', 1)
+            cands += [g for g in self.prog.globals if g.endswith('/' + p + '.' + n)]
+        for cand in cands:
+            if cand in self.prog.globals:
+                p = self.val(st, {'k': 'global', 'n': cand})
+                k = self.kind(p.elem)
+                if k in ('array', 'struct'):
+                    return p
+                return self.load(st, p.addr)
+        return None
+
+    def map_heaps(self, st, m):
+        tid = m.tid
+        u = self.U(tid)
+        key = self.prog.short(tid)
+        vs = self.sort_of(u['elem']) if self.is_scalar(u['elem']) else None
+        if vs is None or not self.is_scalar(u['key']):
+            raise Unsupported('map type %s' % tid)
+        hv = self.heap_get(st, 'MAPV:' + key, arr(arr(vs)))
+        hh = self.heap_get(st, 'MAPH:' + key, arr(ARR_IB))
+        return key, u, hv, hh
+
+    def map_read(self, st, m, k, has=False):
+        key, u, hv, hh = self.map_heaps(st, m)
+        present = select(select(hh, m.term), k)
+        if has:
+            return present
+        zero = FALSE if self.is_bool(u['elem']) else ZERO
+        v = ite(present, select(select(hv, m.term), k), zero)
+        return self.wrap_scalar(v, u['elem'], st)
+
     def value_typename(self, v):
         if isinstance(v, PtrV):
             return self.tname(v.elem).split('.')[-1]
@@ -313,6 +348,11 @@ class Verifier(Exec):
             if loc in ('anything', '*'):
                 regs.append(('any',))
                 continue
+            initonly = False
+            mi = re.match(r'^init\((.*)\)$', loc)
+            if mi:
+                initonly = True
+                loc = mi.group(1).strip()
             m = re.match(r'^(.*)\[(.*):(.*)\]$', loc)
             m2 = re.match(r'^(.*)\[\*\]$', loc)
             ev = SpecEval(self, st, env, None, 'modifies ' + loc)
@@ -331,7 +371,7 @@ class Verifier(Exec):
                 ek = self.elem_key(base.elem) if isinstance(base, SliceV) else 'uint8'
                 if isinstance(base, SliceV) and not self.is_scalar(base.elem):
                     raise SpecError('modifies %s: slice of aggregates not supported as region' % loc)
-                regs.append(('slice', ek, base.arr, lo, hi))
+                regs.append(('initbits' if initonly else 'slice', ek, base.arr, lo, hi))
                 continue
             # object or object field:  *p   p.f   *p.f
             fld = None
@@ -392,6 +432,9 @@ class Verifier(Exec):
             ev = SpecEval(self, st, {}, None, 'binop')
             if isinstance(x, Opaque) or isinstance(y, Opaque):
                 r = eq(self.scalar_term(x), self.scalar_term(y))
+            elif isinstance(x, SliceV) and isinstance(y, SliceV):
+                # only comparison with nil is legal for slices
+                r = eq(x.arr, ZERO) if ins['y'].get('nil') else eq(y.arr, ZERO)
             else:
                 r = ev.deep_eq(x, y)
             return r if op == '==' else not_(r)
@@ -742,7 +785,11 @@ class Verifier(Exec):
         else:
             # external function: parameter names from spec 'params' option
             pn = spec.opts.get('params')
-            raise Unsupported('external callee %s: use trusted.spec params' % callee)
+            if pn is None or len(pn) != len(args):
+                raise Unsupported('external callee %s: trusted.spec needs a params line with %d names' % (callee, len(args)))
+            pnames, ptypes, rnames, fvnames = pn, [None] * len(pn), [], []
+            rt_ = ins['type']
+            rtypes = self.U(rt_)['elems'] if self.kind(rt_) == 'tuple' else ([rt_] if rt_ else [])
         env = {}
         for n, a in zip(pnames, args):
             env[n] = a
@@ -754,15 +801,15 @@ class Verifier(Exec):
             self.oblige(st, 'pre', '%s.%d' % (short_fn(callee), i), t, {'clause': cl.text})
         pre_state = st.copy()
         alloc_before = st.alloc
-        # frame: havoc what the callee may modify
-        if spec.modifies:
-            regs = self.eval_regions(spec.modifies, st, env)
-            self.check_call_frame(st, regs)
-            self.havoc_regions(st, regs, 'call')
         # callee may allocate
+        regs = self.eval_regions(spec.modifies, st, env) if spec.modifies else []
         na = self.ctx.fresh('alloc', INT)
         self.ctx.assume(le(alloc_before, na))
         st.alloc = na
+        # frame: havoc what the callee may modify
+        if regs:
+            self.check_call_frame(st, regs)
+            self.havoc_regions(st, regs, 'call')
         # result
         rt = ins['type']
         if self.kind(rt) == 'tuple':
@@ -1078,7 +1125,15 @@ class Verifier(Exec):
         return ''
 
     def map_lookup(self, st, ins, m, k):
-        raise Unsupported('map lookup')
+        if not isinstance(m, Opaque):
+            raise Unsupported('lookup on %r' % (m,))
+        key, u, hv, hh = self.map_heaps(st, m)
+        self.valid_scalar_heap(hv, u['elem'], True)
+        kt = self.scalar_term(k)
+        v = self.map_read(st, m, kt)
+        if ins.get('commaok'):
+            return TupleV([v, select(select(hh, m.term), kt)])
+        return v
 
     def map_update(self, st, ins):
         raise Unsupported('map update')
@@ -1122,6 +1177,9 @@ class Verifier(Exec):
             except SpecError:
                 pass
         self.nreq = 0
+        for gi in self.specs.globalinvs:
+            if gi.pkg == fn['pkg'] and not (spec and 'noglobalinv' in spec.opts.get('entry', [])):
+                c.assume(self.eval_clause(gi, st, {}, None, 'globalinv'))
         if spec:
             for cl in spec.requires:
                 c.assume(self.eval_clause(cl, st, eenv, None))
@@ -1130,8 +1188,8 @@ class Verifier(Exec):
         old = st.copy()
         self.old = old
         self.entry_nassert = len(c.asserts)
-        if spec and spec.modifies is not None:
-            self.writable = self.eval_regions(spec.modifies, st, eenv) + [('fresh', self.alloc0)]
+        if spec:
+            self.writable = self.eval_regions(spec.modifies or [], st, eenv) + [('fresh', self.alloc0)]
         self.exec_blocks(st)
         return c
 
@@ -1310,11 +1368,20 @@ class Verifier(Exec):
         env = self.spec_env(scope)
         self.cur_line = lp.ast['line'] if lp.ast else self.cur_line
         self.cur_detail = 'loop%s' % lp.ordinal
-        invs = spec.invariants if spec else []
+        invs = list(spec.invariants) if spec else []
+        ri = self.range_index(h)
+        if ri is not None:
+            cell, bound = ri
+            env = dict(env)
+            env['iter'] = ('lazy', (lambda c_: (lambda st_: add(st_.cells[c_], ONE)))(cell))
+            env['rangelen'] = ('lazy', (lambda b_: (lambda st_: self.val(st_, b_)))(bound))
+            auto = Clause('invariant', '0 <= iter && iter <= rangelen', None, 'auto:range')
+            invs = [auto] + invs
         # 1. invariants on entry
+        nauto = len(invs) - (len(spec.invariants) if spec else 0)
         for i, cl in enumerate(invs):
             t = self.eval_clause(cl, st, env, self.old)
-            self.oblige(st, 'inv', 'loop%s.%d:entry' % (lp.ordinal, i), t, {'clause': cl.text}, cl.props)
+            self.oblige(st, 'inv', 'loop%s.%s:entry' % (lp.ordinal, 'auto' if cl.src == 'auto:range' else i - nauto), t, {'clause': cl.text}, cl.props)
         # 2. havoc
         cells, heaps = self.loop_modified(lp)
         st = st.copy()
@@ -1326,6 +1393,9 @@ class Verifier(Exec):
         if spec and spec.writes is not None:
             regions = self.eval_regions(spec.writes, pre, env) + [('fresh', pre.alloc)]
         if heaps:
+            na = self.ctx.fresh('alloc', INT)
+            self.ctx.assume(le(pre.alloc, na))
+            st.alloc = na
             if regions is not None:
                 self.havoc_regions(st, [r for r in regions if r[0] != 'fresh'] , 'loop%s' % lp.ordinal)
                 self.havoc_fresh(st, pre.alloc, 'loop%s' % lp.ordinal)
@@ -1334,9 +1404,6 @@ class Verifier(Exec):
                 self.havoc_fresh(st, self.alloc0, 'loop%s' % lp.ordinal)
             else:
                 self.havoc_regions(st, [('any',)], 'loop%s' % lp.ordinal)
-            na = self.ctx.fresh('alloc', INT)
-            self.ctx.assume(le(pre.alloc, na))
-            st.alloc = na
         st.pc = self.ctx.name('pcL%d' % h, st.pc)
         # 3. assume invariants
         for cl in invs:
@@ -1350,9 +1417,21 @@ class Verifier(Exec):
         if spec and spec.decreases is not None:
             ev = SpecEval(self, st, env, self.old, spec.decreases.src)
             dec0 = self.ctx.name('dec%s' % lp.ordinal, ev.term(spec.decreases.expr))
-        self.loopctx[h] = (lp, spec, env, dec0, regions)
+        self.loopctx[h] = (lp, spec, env, dec0, regions, invs)
         lp.regions = regions
         return st
+
+    def range_index(self, h):
+        """(cell name, bound operand) of a compiler-generated rangeindex loop headed at block h"""
+        ins = self.cfg.blocks[h]['instrs']
+        if len(ins) >= 4 and ins[0]['op'] == 'UnOp' and ins[0]['x'].get('k') == 'reg':
+            cell = ins[0]['x']['n']
+            a = self.allocs.get(cell)
+            if a is not None and a.get('comment') == 'rangeindex' and cell in self.cellset:
+                for i2 in ins:
+                    if i2['op'] == 'BinOp' and i2['binop'] == '<':
+                        return cell, i2['y']
+        return None
 
     def havoc_fresh(self, st, base, tag):
         """objects allocated at or after `base` may have been written: forget their contents.
@@ -1363,10 +1442,11 @@ class Verifier(Exec):
             if old.op == 'const' and old.val.startswith(tag + ':'):
                 continue   # already havoc'd by regions: weaken instead? keep (regions havoc is stronger info)
             # only matters if something fresh could exist: base < current alloc.  Cheap syntactic test:
-            if st.alloc is base:
+            if st.alloc is base or name.startswith('MAP'):
                 continue
             new = c.fresh(tag + 'f:' + name, old.sort)
             st.heap[name] = new
+            c.heap_bound[new.val] = st.alloc
             if name.startswith(('HS:', 'INIT:')):
                 a, k = const('a!', INT), const('k!', INT)
                 c.assume(forall([a, k], implies(lt(a, base), eq(select(select(new, a), k), select(select(old, a), k))), [select(select(new, a), k)]))
@@ -1376,15 +1456,16 @@ class Verifier(Exec):
                 c.assume(forall([p], implies(lt(p, base), eq(select(new, p), select(old, p))), [select(new, p)]))
 
     def back_edge(self, h, st):
-        lp, spec, env, dec0, regions = self.loopctx[h]
+        lp, spec, env, dec0, regions, invs = self.loopctx[h]
         self.cur_line = lp.ast['line'] if lp.ast else self.cur_line
         self.cur_detail = 'loop%s' % lp.ordinal
         if spec:
             for u in spec.asserts:
                 self.apply_use(u, st, env)
-            for i, cl in enumerate(spec.invariants):
-                t = self.eval_clause(cl, st, env, self.old)
-                self.oblige(st, 'inv', 'loop%s.%d:preserved' % (lp.ordinal, i), t, {'clause': cl.text}, cl.props)
+        for i, cl in enumerate(invs):
+            t = self.eval_clause(cl, st, env, self.old)
+            self.oblige(st, 'inv', 'loop%s.%s:preserved' % (lp.ordinal, 'auto' if cl.src == 'auto:range' else i - (len(invs) - len(spec.invariants) if spec else 0)), t, {'clause': cl.text}, cl.props)
+        if spec:
             if spec.decreases is not None:
                 ev = SpecEval(self, st, env, self.old, spec.decreases.src)
                 d = ev.term(spec.decreases.expr)
